@@ -332,7 +332,9 @@ func C16sched(rep *ev.Report) {
 	rep.Bound("scenarios_total", len(scenarios))
 
 	for i, sc := range scenarios {
-		if i%sn != si {
+		// multiplicative hashing spreads the long operations evenly over the shards (i % sn would give one shard
+		// every pair whose second operation is a long one)
+		if int((uint32(i)*2654435761)>>16)%sn != si {
 			continue
 		}
 
